@@ -473,3 +473,21 @@ SXOP(eq_all_regs)
     }
     return Val::J(o + "]," + s + "]," + h + "]}");
 }
+
+// ---- common subexpression elimination: (cse (vec e1 e2 ...)) -> {"repl":[[sym, body]...], "reduced":[...]} as tree dumps
+#include <symengine/visitor.h>
+SXOPN(cse_, "cse")
+{
+    vec_basic exprs = c.VEC(e, 1);
+    vec_pair repl;
+    vec_basic reduced;
+    cse(repl, reduced, exprs);
+    std::string o = "{\"repl\":[";
+    for (size_t i = 0; i < repl.size(); i++) {
+        o += (i ? "," : "") + std::string("[") + dump_tree(*repl[i].first) + "," + dump_tree(*repl[i].second) + "," + jstr(repl[i].second->__str__()) + "]";
+    }
+    o += "],\"reduced\":[";
+    for (size_t i = 0; i < reduced.size(); i++) o += (i ? "," : "") + dump_tree(*reduced[i]);
+    o += "],\"n_in\":" + std::to_string(exprs.size()) + "}";
+    return Val::J(o);
+}
